@@ -59,15 +59,22 @@ def harness_args(tier, seed):
 
 SPEC = {
     "id": "C09",
-    "gens": ["FmtTables", "ParseTables"],
-    "lean_modules": ["RsslVerif.Thm.C09"],
+    "gens": ["FmtTables", "ParseTables", "SyntaxTables", "LexTables"],
+    "lean_modules": ["RsslVerif.Thm.C09", "RsslVerif.Thm.C10"],
     "level_note": "roundtrip_expr_partial: WF excludes LitOk-failing literals only; casts, sizeof, template "
                   "arguments, braced init, statements and declarators are reached by the correspondence run only",
     "theorems": [T + n for n in [
         "binToks_lexes", "unTok_lexes", "tables_agree", "assoc_agrees", "ternary_level", "unary_tables_agree",
         "glue_prefix_prefix", "glue_postfix_next", "glue_needs_space", "paren_rule_matches_grammar",
         "roundtrip_expr_partial", "roundtrip_subexpr_partial", "roundtrip_comma_positions_partial", "literal_roundtrip_partial", "negative_literals_break",
-        "decimal_roundtrip"]],
+        "decimal_roundtrip"]] + [
+        # "every literal reads back with the same value and type": the reading half is property C10's; its literal
+        # theorems and the shape obligations of the lexer's numeric functions are C09 obligations too (a change of
+        # calculate_float64_from_parts / literal_*_int breaks them here as well)
+        "RsslVerif.Thm.C10." + n for n in [
+            "int_value_exact", "int_overflow_rejected", "int_rejected_only_when_too_large", "literalInt_radix",
+            "token_numeric_dispatch", "float_parts_shape_as_modelled", "lex_float_nearest", "nearest64_correct",
+            "nearest_correct", "nearest_exact_on_representable"]],
     "harness": "c09",
     "harness_args": harness_args,
     "nontrivial": nontrivial,
